@@ -27,60 +27,55 @@ fn py_positions(len: i64, start: Option<i32>, stop: Option<i32>, step: i32, out:
     n
 }
 
-fn mk_array(len: usize) -> Variable {
-    let mut v: Vec<Rcvar> = Vec::with_capacity(len);
-    let mut i = 0u64;
-    while (i as usize) < len { v.push(Rcvar::new(Variable::Number(Number::from(i)))); i += 1; }
-    Variable::Array(v)
-}
-
-fn check_slice(len: usize) {
-    let v = mk_array(len);
-    let start: Option<i32> = kani::any();
-    let stop: Option<i32> = kani::any();
-    let step: i32 = kani::any();
-    kani::assume(step != 0);
-    let r = v.slice(start, stop, step);
-    let mut want = [0i64; 8];
-    let n = py_positions(len as i64, start, stop, step, &mut want);
-    match r {
-        Some(ref got) => {
-            kani::assert(got.len() == n, "slice length equals Python's");
-            let mut k = 0usize;
-            while k < got.len() && k < 8 {
-                match &*got[k] {
-                    Variable::Number(x) => kani::assert(x.as_u64() == Some(want[k] as u64), "slice element equals Python's"),
-                    _ => kani::assert(false, "element is a number"),
+/// Variable::slice on an array of exactly N elements (elements are distinct Rc cells, recognised by pointer identity) for all
+/// Option<i32> start/stop and all non-zero i32 steps, against Python's rule.
+macro_rules! slice_harness { ($name:ident, $n:expr, $unwind:expr) => {
+    #[kani::proof]
+    #[kani::unwind($unwind)]
+    #[kani::stub(std::rc::Rc::drop_slow, rc_drop_slow_stub)]
+    fn $name() {
+        const N: usize = $n;
+        let elems: [Rcvar; N] = std::array::from_fn(|_| Rcvar::new(Variable::Null));
+        let v = Variable::Array(elems.to_vec());
+        let start: Option<i32> = kani::any();
+        let stop: Option<i32> = kani::any();
+        let step: i32 = kani::any();
+        kani::assume(step != 0);
+        let r = v.slice(start, stop, step);
+        let mut want = [0i64; 8];
+        let n = py_positions(N as i64, start, stop, step, &mut want);
+        match r {
+            Some(ref got) => {
+                kani::assert(got.len() == n, "slice length equals Python's");
+                let mut k = 0usize;
+                while k < got.len() && k < N {
+                    let w = want[k] as usize;
+                    kani::assert(w < N && Rcvar::ptr_eq(&got[k], &elems[w]), "slice element equals Python's");
+                    k += 1;
                 }
-                k += 1;
+                kani::cover!(got.len() >= 2 && step < 0, "multi-element backwards slice reached");
+                kani::cover!(got.len() == 0, "empty slice reached");
             }
-            kani::cover!(got.len() >= 2 && step < 0, "multi-element backwards slice reached");
-            kani::cover!(got.len() == 0, "empty slice reached");
+            None => kani::assert(false, "slice of an array is Some"),
         }
-        None => kani::assert(false, "slice of an array is Some"),
+        std::mem::forget(r); std::mem::forget(v); std::mem::forget(elems);
     }
-    std::mem::forget(r);
-    std::mem::forget(v);
+}}
+slice_harness!(c07_slice_len2, 2, 5);
+slice_harness!(c07_slice_len3, 3, 6);
+slice_harness!(c07_slice_len4, 4, 7);
+slice_harness!(c07_slice_len6, 6, 9);
+
+#[kani::proof]
+#[kani::unwind(3)]
+#[kani::stub(std::rc::Rc::drop_slow, rc_drop_slow_stub)]
+fn c07_slice_len0() {
+    let v = Variable::Array(Vec::new());
+    let r = v.slice(kani::any(), kani::any(), kani::any());
+    match r { Some(ref got) => kani::assert(got.is_empty(), "slice of an empty array is empty"), None => kani::assert(false, "Some") }
+    kani::cover!(true, "reached");
+    std::mem::forget(r); std::mem::forget(v);
 }
-
-#[kani::proof]
-#[kani::unwind(6)]
-#[kani::stub(std::rc::Rc::drop_slow, rc_drop_slow_stub)]
-fn c07_slice_len0_to_3() {
-    let len: usize = kani::any();
-    kani::assume(len <= 3);
-    check_slice(len);
-}
-
-#[kani::proof]
-#[kani::unwind(7)]
-#[kani::stub(std::rc::Rc::drop_slow, rc_drop_slow_stub)]
-fn c07_slice_len4() { check_slice(4); }
-
-#[kani::proof]
-#[kani::unwind(9)]
-#[kani::stub(std::rc::Rc::drop_slow, rc_drop_slow_stub)]
-fn c07_slice_len6() { check_slice(6); }
 
 #[kani::proof]
 #[kani::unwind(5)]
@@ -94,28 +89,22 @@ fn c07_slice_non_array_is_none() {
 }
 
 #[kani::proof]
-#[kani::unwind(6)]
+#[kani::unwind(5)]
 #[kani::stub(std::rc::Rc::drop_slow, rc_drop_slow_stub)]
 fn c07_negative_index() {
-    let len: usize = kani::any();
-    kani::assume(len <= 3);
-    let v = mk_array(len);
+    const N: usize = 3;
+    let elems: [Rcvar; N] = std::array::from_fn(|_| Rcvar::new(Variable::Bool(true)));
+    let v = Variable::Array(elems.to_vec());
     let idx: usize = kani::any();
     // get_negative_index(n) is called by the interpreter with n = -idx for idx < 0, i.e. n >= 1 (n = 0 is treated as 1)
     let r = v.get_negative_index(idx);
     let n = if idx == 0 { 1 } else { idx };
-    match &*r {
-        Variable::Number(x) => { kani::assert(n <= len && x.as_u64() == Some((len - n) as u64), "negative index selects length - n"); }
-        Variable::Null => kani::assert(n > len, "null only when out of range"),
-        _ => kani::assert(false, "unexpected value"),
-    }
+    if n <= N { kani::assert(Rcvar::ptr_eq(&r, &elems[N - n]), "negative index selects length - n"); }
+    else { kani::assert(r.is_null(), "null when out of range"); }
     let p: usize = kani::any();
     let q = v.get_index(p);
-    match &*q {
-        Variable::Number(x) => kani::assert(p < len && x.as_u64() == Some(p as u64), "index selects position"),
-        Variable::Null => kani::assert(p >= len, "null only when out of range"),
-        _ => kani::assert(false, "unexpected value"),
-    }
-    kani::cover!(n <= len && len == 3, "hit reached");
-    std::mem::forget(r); std::mem::forget(q); std::mem::forget(v);
+    if p < N { kani::assert(Rcvar::ptr_eq(&q, &elems[p]), "index selects position"); }
+    else { kani::assert(q.is_null(), "null when out of range"); }
+    kani::cover!(n == 3, "first element through a negative index reached");
+    std::mem::forget(r); std::mem::forget(q); std::mem::forget(v); std::mem::forget(elems);
 }
